@@ -46,6 +46,7 @@ CONSTANTS
   RangeSeq,       \* sequence of query ranges <<lo,hi>> over time points
   LimitSeq,       \* limits used for the limit law (0 = unlimited)
   ShardCounts,    \* shard counts of ShardQuery ({} disables the action)
+  EmptyName,      \* BOOLEAN: include matchers on the empty label name
   Mode,           \* "mc" | "sim"   (sim draws arguments with RandomElement)
   EmitMode        \* "all" | "class" | "none"
 
@@ -120,13 +121,19 @@ MkAlpha(eq, res) ==
 BaseMatchers == {[t |-> "=",  n |-> BaseName, v |-> BaseVal],
                  [t |-> "!=", n |-> BaseName, v |-> BaseVal],
                  [t |-> "=~", n |-> BaseName, v |-> ".+"]}
-Singles   == MkAlpha(EqVals, ReSyms) \cup BaseMatchers
+\* matchers on the empty label name (no series carries it: its value is always ""); they reach the
+\* AllPostingsKey shortcut of PostingsForMatchers.  Only used in single-matcher lists.
+EmptyNameMatchers == IF EmptyName
+                     THEN [t : {"=", "!="}, n : {""}, v : {"", "x"}] \cup [t : {"=~", "!~"}, n : {""}, v : {""}]
+                     ELSE {}
+Singles   == MkAlpha(EqVals, ReSyms) \cup BaseMatchers \cup EmptyNameMatchers
 PairAlpha == MkAlpha(PairEqVals, PairReSyms) \cup {[t |-> "=", n |-> BaseName, v |-> BaseVal]}
 MsLists == (IF MaxMs >= 0 THEN {<<>>} ELSE {})
            \cup (IF MaxMs >= 1 THEN {<<m>> : m \in Singles} ELSE {})
            \cup (IF MaxMs >= 2 THEN {<<m1, m2>> : m1 \in PairAlpha, m2 \in PairAlpha} ELSE {})
 
-ValF == TLCEval([s \in AllIds |-> TLCEval([n \in Names \cup {BaseName} |-> IF n = BaseName THEN BaseVal ELSE LM[s][n]])])
+ValF == TLCEval([s \in AllIds |-> TLCEval([n \in Names \cup {BaseName, ""} |->
+                   IF n = BaseName THEN BaseVal ELSE IF n = "" THEN "" ELSE LM[s][n]])])
 Val(s, n) == ValF[s][n]          \* value of label n in series s ("" = absent)
 IsNot(m)  == m.t \in {"!=", "!~"}
 \* labels.Matcher.Matches
@@ -205,10 +212,12 @@ RECURSIVE Inter(_)
 Inter(F) == IF Cardinality(F) = 1 THEN CHOOSE x \in F : TRUE
             ELSE LET x == CHOOSE x \in F : TRUE IN x \cap Inter(F \ {x})
 
-\* PostingsForMatchers (the sort of ms and the AllPostings shortcut for the
-\* {""=""} key do not change the resulting set; the empty list yields the
-\* empty intersection, exactly as index.Intersect() does)
+\* PostingsForMatchers (the sort of ms does not change the resulting set; a single matcher with
+\* empty name and empty value is taken as the AllPostingsKey whatever its type; the empty list
+\* yields the empty intersection, exactly as index.Intersect() does)
+IsAllKey(ms) == Len(ms) = 1 /\ ms[1].n = "" /\ ms[1].v = ""     \* the type of the matcher is not looked at
 PFM(ix, ms) ==
+  IF IsAllKey(ms) THEN ix ELSE
   LET st     == [i \in DOMAIN ms |-> Step(ix, ms, ms[i])]
       hasSub == \E i \in DOMAIN ms : IsSub(ms, ms[i])
       hasInt == \E i \in DOMAIN ms : ~IsSub(ms, ms[i])
@@ -382,25 +391,38 @@ TypeOK == /\ phase \in 1..3
 IsQ  == hist' # hist /\ Last(hist').a = "Q"
 QMs  == Last(hist').ms
 
+\* Known findings (known_findings.json), written as narrow predicates on the matcher list:
+\* KF-C16-1  PostingsForMatchers of the empty list is the empty intersection: Select() without
+\*           matchers returns nothing although every series satisfies the (empty) conjunction
+\* KF-C16-2  {""!=""} and {""!~""} are taken for the AllPostingsKey: every series is selected
+\*           although no series satisfies the matcher
+KF_C16_1(ms) == ms = <<>>
+KF_C16_2(ms) == IsAllKey(ms) /\ IsNot(ms[1])
+
 \* C16 core: PostingsForMatchers selects exactly the series satisfying every matcher
-\* (absent label = ""), on every block and on the head, for every non-empty matcher list
+\* (absent label = ""), on every block and on the head
 PostingsCorrect ==
-  [][IsQ /\ QMs # <<>> => \A c \in 1..phase : PFM(Idx(c), QMs) = {s \in Idx(c) : RefMatch(s, QMs)}]_vars
+  [][IsQ => \/ \A c \in 1..phase : PFM(Idx(c), QMs) = {s \in Idx(c) : RefMatch(s, QMs)}
+            \/ KF_C16_1(QMs) \/ KF_C16_2(QMs)]_vars
 
 \* Select through DB.Querier: everything with a sample in range, nothing that does not match
 SelectBounds ==
-  [][IsQ /\ QMs # <<>> => LET T == Tab(QMs) IN
-       \A i \in RangeIdx : /\ Must(QMs, RangeSeq[i]) \subseteq ImplSelect(T, RangeSeq[i])
-                           /\ ImplSelect(T, RangeSeq[i]) \subseteq May(QMs)]_vars
+  [][IsQ => \/ LET T == Tab(QMs) IN
+               \A i \in RangeIdx : /\ Must(QMs, RangeSeq[i]) \subseteq ImplSelect(T, RangeSeq[i])
+                                   /\ ImplSelect(T, RangeSeq[i]) \subseteq May(QMs)
+            \/ KF_C16_1(QMs) \/ KF_C16_2(QMs)]_vars
 
 \* label names / values: every name/value of a matching series with data in range, only those of stored matching series
-LabelBounds ==
-  [][IsQ => LET T == Tab(QMs) may == TLCEval(May(QMs)) IN \A i \in RangeIdx :
-       LET must == TLCEval({s \in may : InRange(s, RangeSeq[i])}) IN
-       /\ NamesOf(must) \subseteq ImplNames(T, RangeSeq[i])
-       /\ ImplNames(T, RangeSeq[i]) \subseteq NamesOf(may)
-       /\ \A n \in Names : /\ ValsOf(must, n) \subseteq ImplVals(T, n, RangeSeq[i])
-                           /\ ImplVals(T, n, RangeSeq[i]) \subseteq ValsOf(may, n)]_vars
+LabelBoundsOf(ms) ==
+  LET T   == Tab(ms)
+      may == TLCEval(May(ms)) IN
+  \A i \in RangeIdx :
+    LET must == TLCEval({s \in may : InRange(s, RangeSeq[i])}) IN
+    /\ NamesOf(must) \subseteq ImplNames(T, RangeSeq[i])
+    /\ ImplNames(T, RangeSeq[i]) \subseteq NamesOf(may)
+    /\ \A n \in Names : /\ ValsOf(must, n) \subseteq ImplVals(T, n, RangeSeq[i])
+                        /\ ImplVals(T, n, RangeSeq[i]) \subseteq ValsOf(may, n)
+LabelBounds == [][IsQ => (LabelBoundsOf(QMs) \/ KF_C16_2(QMs))]_vars
 
 \* the limit law survives per-querier truncation and the pairwise merge (for every set of queriers a
 \* range of RangeSeq selects)
